@@ -532,3 +532,71 @@ func dutyGetterResult(v ssa.Value) (*ssa.Function, bool) {
 	}
 	return g, true
 }
+
+// checkWaitGroupBalance: every (*sync.WaitGroup).Add in fn is followed, on every path to the next Add, to Wait or
+// to a return, by the start of a goroutine (or a deferred/direct call) that calls Done on a wait group — an Add
+// that can be left without its Done makes Wait block for ever. Returns the number of Add sites examined.
+func checkWaitGroupBalance(p *core.Prog, r *core.Report, rule string, fns []*ssa.Function, consequence string) int {
+	isWG := func(c *ssa.CallCommon, name string) bool {
+		callee := c.StaticCallee()
+		return callee != nil && callee.Name() == name && callee.Signature.Recv() != nil && strings.HasSuffix(callee.Signature.Recv().Type().String(), "sync.WaitGroup")
+	}
+	callsDone := func(f *ssa.Function) bool {
+		found := false
+		for _, wf := range core.WithClosures(f) {
+			core.EachInstr(wf, func(in ssa.Instruction) {
+				if ci, ok := in.(ssa.CallInstruction); ok && isWG(ci.Common(), "Done") {
+					found = true
+				}
+			})
+		}
+		return found
+	}
+	n := 0
+	for _, f := range fns {
+		var adds []ssa.Instruction
+		core.EachInstr(f, func(in ssa.Instruction) {
+			if ci, ok := in.(ssa.CallInstruction); ok && isWG(ci.Common(), "Add") {
+				adds = append(adds, in)
+			}
+		})
+		for i, a := range adds {
+			n++
+			if args := a.(ssa.CallInstruction).Common().Args; len(args) == 2 {
+				if _, isConst := args[1].(*ssa.Const); !isConst {
+					r.Hold(rule, fmt.Sprintf("%s|wait-group-add#%d|counted", core.FnKey(f), i+1), p.Pos(a.Pos()), "Add of a computed count (one Add for a whole fan-out): not decided by this rule")
+					continue
+				}
+			}
+			matched := func(x ssa.Instruction) bool {
+				switch y := x.(type) {
+				case *ssa.Go:
+					switch cv := y.Call.Value.(type) {
+					case *ssa.MakeClosure:
+						if fn, ok := cv.Fn.(*ssa.Function); ok {
+							return callsDone(fn)
+						}
+					case *ssa.Function:
+						return callsDone(cv)
+					}
+					if c := y.Call.StaticCallee(); c != nil {
+						return callsDone(c)
+					}
+				case ssa.CallInstruction:
+					return isWG(y.Common(), "Done")
+				}
+				return false
+			}
+			w := core.PathQuery{Fn: f, From: a, Target: func(x ssa.Instruction) bool {
+				if core.IsReturn(x) {
+					return true
+				}
+				ci, ok := x.(ssa.CallInstruction)
+				return ok && (isWG(ci.Common(), "Add") || isWG(ci.Common(), "Wait"))
+			}, Avoid: matched}.Find()
+			r.Check(w == nil, rule, fmt.Sprintf("%s|wait-group-add#%d|matched-by-done", core.FnKey(f), i+1), p.Pos(a.Pos()), "every Add is followed by the start of the goroutine that calls Done",
+				"after this Add the function can reach the next Add, Wait or a return without having started the goroutine that calls Done (e.g. a `continue` between the two): Wait never returns — "+consequence, p.WitnessText(w)...)
+		}
+	}
+	return n
+}
